@@ -103,6 +103,7 @@ class ContractSet:
         self.exceptions = {}        # name -> base
         self.globals = {}           # name -> Val or ('module', ...)
         self.helpers = {}           # spec helper name -> callable(interp, *vals)
+        self.opaque_attrs = {}      # (opaque sort, attribute) -> 'int' | 'bool': typed attribute of an unknown object
         self.shapes = {}
         self.ghost = {}             # ghost field -> shape
         self.assumptions = []
